@@ -531,6 +531,32 @@ def abs_si(q):
     return sc * (x - off)
 
 
+ABS_ZERO = {"K": 0.0, "R": 0.0, "degC": -273.15, "degF": -459.67, "mK": 0.0, "mdegC": -273150.0}
+
+
+def part_offset_equal(ctx, shard):
+    """the SAME physical temperature written on two scales (absolute zero, where every scale's reading is exact):
+    == / != / <= / >= answer by the physical values, or refuse - never 'different' because the spellings differ"""
+    world.reset_world()
+    for n1 in shard:
+        for n2 in ABS_ZERO:
+            for shape in ("scalar", "array"):
+                a = unyt_quantity(ABS_ZERO[n1], n1) if shape == "scalar" else unyt_array(np.array([ABS_ZERO[n1]] * 2), n1)
+                b = unyt_quantity(ABS_ZERO[n2], n2) if shape == "scalar" else unyt_array(np.array([ABS_ZERO[n2]] * 2), n2)
+                for opname, want in (("eq", True), ("ne", False), ("le", True), ("ge", True), ("lt", False), ("gt", False)):
+                    opf, uf = OFFSET_OPS[opname]
+                    for form, f in (("operator", opf), ("ufunc", uf)):
+                        ctx.count("evaluations")
+                        r = run_real(lambda: f(a, b))
+                        if r[0] != "ok":
+                            ctx.count("refused")
+                            continue
+                        ctx.decided(("offset-equal", opname, form, n1, n2, shape))
+                        if not np.all(np.asarray(r[1], dtype=bool) == want):
+                            ctx.violation(f"C04|offset-equal|op={opname}|form={form}|left={n1}|right={n2}|mode=wrong-boolean",
+                                          {"part": "offset-equal", "op": opname, "form": form, "left": n1, "right": n2, "shape": shape}, want, np.asarray(r[1]).tolist())
+
+
 def part_offset(ctx, shard):
     world.reset_world()
     for group, n1 in shard:
@@ -927,6 +953,7 @@ def run(ctx):
     harness.pmap(ctx, part, shards)
     harness.pmap(ctx, part_offset, [[(g, n)] for g in OFFSET_GROUPS for n in g])
     harness.pmap(ctx, part_trig_offset, [[n] for n in TRIG_UNITS])
+    harness.pmap(ctx, part_offset_equal, [[n] for n in ABS_ZERO])
     extra_pairs = list(itertools.product(EXTRA_LEAVES, EXTRA_LEAVES))
     harness.pmap(ctx, part_extra, [extra_pairs[i::32] for i in range(32)])
     harness.pmap(ctx, part_namesake, [["stale-after-modify"], ["two-registries"]])
@@ -969,6 +996,9 @@ def replay(case):
         return list(ctx.violations.items())
     if case.get("part") == "widths":
         part_widths(ctx, [(tuple(case["units"]), tuple(case["dtypes"]))])
+        return list(ctx.violations.items())
+    if case.get("part") == "offset-equal":
+        part_offset_equal(ctx, [case["left"]])
         return list(ctx.violations.items())
     if case.get("part") == "offset":
         grp = [g for g in OFFSET_GROUPS if case["left"] in g][0]
